@@ -531,7 +531,11 @@ def active_task_pair(R, ro, rule):
             for t in n.ast.targets:
                 if isinstance(t, ast.Name):
                     saves.append((t.id, n))
-    R.need(saves, "idiom: %s no longer saves self.active_task before overwriting it" % ct.qualname)
+    if not saves:
+        R.violation(rule, ct.qualname + ":save", site,
+                    "%s overwrites self.active_task without first saving the previous value: whatever it 'restores' afterwards is not the task that was "
+                    "active before (after a nested synchronous call the enclosing task is no longer the active one)" % ct.name)
+        return
     sname, snode = saves[0]
     restores = [n for n in kit.store_nodes(ct, "active_task") if isinstance(n.ast, ast.Assign) and q.src(n.ast.value) == sname]
     steps = [n for n, c in ro.calls_to(ct, [st])]
@@ -555,3 +559,57 @@ def active_task_pair(R, ro, rule):
     # nothing between restore and exit sets it again; and the saved value is read at entry time
     p = cfg.find_path([cfg.entry], [snode], N, cut_nodes=[])
     R.need(p is not None, "idiom: save of active_task unreachable")
+
+
+def unwrap_capture(R, ro, rule):
+    """The handler around unwrap(self._last_value) covers BaseException: a dependency that failed
+    with any exception - also one derived directly from BaseException - is thrown into the task at
+    its yield rather than unwinding the scheduler."""
+    hier = ExcHierarchy(R.repo)
+    driver = ro.step_method_task()
+    found = 0
+    for tr in [n for n in ast.walk(driver.node) if isinstance(n, ast.Try)]:
+        body_calls = [c for s_ in tr.body for c in q.calls(s_)]
+        if not any(q.call_name(c) == "unwrap" and c.args and q.src(c.args[0]) == "self._last_value" for c in body_calls):
+            continue
+        found += 1
+        cov = [h for h in tr.handlers if kit.handler_covers(h, "BaseException", hier)]
+        R.check(bool(cov), rule, driver.qualname + ":unwrap-handler", R.site(driver, tr),
+                "the failure of a yielded future is caught around unwrap() whatever its class (handler covers BaseException)",
+                "the handler around unwrap(self._last_value) no longer covers BaseException: a dependency that failed with an exception derived directly from "
+                "BaseException (KeyboardInterrupt, SystemExit, a custom control-flow signal) is not raised inside the awaiting task at its yield - it escapes the "
+                "scheduler and the awaiting tasks stay uncomputed")
+    R.need(found >= 1, "idiom: no try around unwrap(self._last_value) in %s" % driver.qualname)
+    # the same for the step itself (an exception of task code becomes the task's error)
+    step = ro.generator_step_fn()
+    for n, c in ro.calls_to(driver, [step]):
+        trs = kit.enclosing_try_handlers(c)
+        cov = [h for t in trs[:1] for h in t.handlers if kit.handler_covers(h, "BaseException", hier)]
+        R.check(bool(cov), rule, driver.qualname + ":step-handler", R.site(driver, c),
+                "whatever the task's code raises is caught around the step (BaseException) and becomes the task's error",
+                "the handler around the generator step no longer covers BaseException: a task that fails with such an exception unwinds the scheduler instead of failing")
+
+
+def wait_for_exits(R, ro, rule):
+    """wait_for returns only when the awaited task is computed and never raises on its own."""
+    wf = ro.wait_for()
+    cfg = cfg_of(wf)
+    tparam = q.param_names(wf.node)[1]
+
+    def computed(nd):
+        if nd.kind != "test":
+            return None
+        k, s, pos = q.atom_test(nd.ast)
+        if k == "call" and s == "%s.is_computed" % tparam:
+            return "T" if pos else "F"
+        return None
+    p = kit.path_avoiding_guard(cfg, [cfg.exit], computed, N)
+    R.check(p is None, rule, wf.qualname + ":returns-computed", R.site(wf),
+            "wait_for returns only over the computed edge of %s.is_computed()" % tparam,
+            "wait_for can return while the awaited task is not computed", cfg.fmt_path(p) if p else None)
+    raises = [n for n in cfg.nodes if n.kind == "stmt" and isinstance(n.ast, ast.Raise)]
+    R.check(not raises, rule, wf.qualname + ":no-raise", R.site(wf),
+            "wait_for never gives up on its own: as long as the task is uncomputed it drains and flushes again",
+            "wait_for raises %s on its own: after a nested synchronous call has flushed the batch a suspended sibling waits for, the outer loop sees "
+            "'still blocked, nothing to flush' although one more drain would make progress - a finite acyclic computation fails"
+            % ", ".join(q.src(n.ast)[:60] for n in raises))
